@@ -30,7 +30,23 @@ def cases(tier):
                 for cb in cbcs:
                     for et in etms:
                         out.append((role, marker, tuple(ch), tuple(cb), tuple(et)))
+    # the same rule in software contexts where the report has nothing else to say: unrecognised software (no recommendations at all)
+    # and a configuration without any other finding (post-quantum kex, AEAD cipher, encrypt-then-MAC MACs only)
+    for ctx in ('unrecognised', 'flawless'):
+        for role in ('server', 'client'):
+            for marker in ('none', 'own', 'other', 'both'):
+                for ch in ([], ['chacha20-poly1305@openssh.com']):
+                    for cb in ([], ['aes128-cbc']) if ctx == 'unrecognised' else ([],):
+                        for et in ([], ['hmac-sha2-256-etm@openssh.com'], ['hmac-sha2-256-etm@openssh.com', 'hmac-sha2-512-etm@openssh.com']):
+                            out.append((role, marker, tuple(ch), tuple(cb), tuple(et), ctx))
     return out
+
+
+CTX_BANNER = {'default': b'SSH-2.0-OpenSSH_9.6', 'unrecognised': b'SSH-2.0-AcmeSSH_1.0', 'flawless': b'SSH-2.0-OpenSSH_9.6'}
+
+
+def banner_of(case):
+    return CTX_BANNER[case[5] if len(case) > 5 else 'default']
 
 
 def kind(name):
@@ -41,15 +57,18 @@ def kind(name):
 
 
 def build(case):
-    role, marker, ch, cb, et = case
-    kex = ['curve25519-sha256']
+    role, marker, ch, cb, et = case[:5]
+    ctx = case[5] if len(case) > 5 else 'default'
+    kex = ['curve25519-sha256'] if ctx != 'flawless' else ['sntrup761x25519-sha512@openssh.com']
     own, other = (MARK_S, MARK_C) if role == 'server' else (MARK_C, MARK_S)
     if marker in ('own', 'both'):
         kex.append(own)
     if marker in ('other', 'both'):
         kex.append(other)
-    enc = [FILL_ENC] + list(ch) + list(cb)
-    mac = [FILL_MAC] + list(et)
+    enc = [FILL_ENC if ctx != 'flawless' else 'aes256-gcm@openssh.com'] + list(ch) + list(cb)
+    mac = [FILL_MAC if ctx != 'flawless' else 'hmac-sha2-512-etm@openssh.com'] + [m for m in et if ctx != 'flawless' or m != 'hmac-sha2-512-etm@openssh.com']
+    if ctx != 'default':
+        return kex, enc, mac
     if ch and ch[0] in H.master_db()['mac']:
         mac.append(ch[0])            # the database also knows this name as a MAC; a MAC of that name is not an encrypt-then-MAC MAC
     if et and len(et) == 2:
@@ -60,18 +79,18 @@ def build(case):
 
 
 def run_one(case, fmt):
-    role, marker, ch, cb, et = case
+    role, marker, ch, cb, et = case[:5]
     kex, enc, mac = build(case)
     opts = ['-n'] + (['-j'] if fmt == 'json' else [])
     if role == 'server':
-        srv = peer.Server(kex=kex, enc=enc, mac=mac, banner=b'SSH-2.0-OpenSSH_9.6')
+        srv = peer.Server(kex=kex, enc=enc, mac=mac, banner=banner_of(case))
         return H.audit(srv, opts=opts + ['--skip-rate-test']), kex, enc, mac
-    cli = peer.Client(kex=kex, enc=enc, mac=mac, banner=b'SSH-2.0-OpenSSH_9.6')
+    cli = peer.Client(kex=kex, enc=enc, mac=mac, banner=banner_of(case))
     return H.client_audit(cli, opts=opts), kex, enc, mac
 
 
 def check_case(case, st):
-    role, marker, ch, cb, et = case
+    role, marker, ch, cb, et = case[:5]
     problems = []
     for fmt in ('text', 'json'):
         res, kex, enc, mac = run_one(case, fmt)
@@ -194,18 +213,20 @@ def run(tier, seed):
     par.pmap(work_history, hist, stats=st, chunk=4)
     vcases = []
     for case in H.pick(cs, seed, 30 if tier == 'quick' else 150):
-        role, marker, ch, cb, et = case
+        role, marker, ch, cb, et = case[:5]
         kex, enc, mac = build(case)
+        bn = banner_of(case)
         fmt = ['-n', '-j'] if (len(vcases) % 2) else ['-n']
         if role == 'server':
-            vcases.append({'label': str(case), 'opts': fmt, 'make': (lambda kex=kex, enc=enc, mac=mac: peer.Server(kex=kex, enc=enc, mac=mac, banner=b'SSH-2.0-OpenSSH_9.6'))})
+            vcases.append({'label': str(case), 'opts': fmt, 'make': (lambda kex=kex, enc=enc, mac=mac, bn=bn: peer.Server(kex=kex, enc=enc, mac=mac, banner=bn))})
         else:
-            vcases.append({'kind': 'client', 'label': str(case), 'opts': fmt, 'make': (lambda kex=kex, enc=enc, mac=mac: peer.Client(kex=kex, enc=enc, mac=mac, banner=b'SSH-2.0-OpenSSH_9.6'))})
+            vcases.append({'kind': 'client', 'label': str(case), 'opts': fmt, 'make': (lambda kex=kex, enc=enc, mac=mac, bn=bn: peer.Client(kex=kex, enc=enc, mac=mac, banner=bn))})
     validated = H.validate_traces(vcases, st)
     return evidence.finish(
         PID, tier, seed, st, t0,
         rule='full product role(2) x marker(4) x chacha{absent, each DB name, unknown} x cbc{absent, each DB name, two, unknown} '
-             'x etm{absent, each DB name, two, unknown} x {text, json}; plus histories: every ordered pair (thorough: triple) of 5 target kinds in ONE '
+             'x etm{absent, each DB name, two, unknown} x {text, json}; a reduced product again for unrecognised software and for a configuration '
+             'with no other finding; plus histories: every ordered pair (thorough: triple) of 5 target kinds in ONE '
              '-T invocation, rule applied to each target; a case is non-trivial when the exposed set V is non-empty',
         assumptions=['virtual socket layer models TCP delivery in whole segments', 'reference rule: refmodels/terrapin.py',
                      'lists are symmetric (c2s == s2c)'],
